@@ -8,10 +8,34 @@ SHARD = 20000
 def _run_shard(root, fam, seed, n, outdir, extra):
     os.makedirs(outdir, exist_ok=True)
     h = os.path.join(root, "harness", "bin", "harness")
-    p = subprocess.run([h, fam, str(seed), str(n), outdir] + extra, stdout=subprocess.PIPE, stderr=subprocess.STDOUT,
-                       text=True, timeout=7200)
-    if p.returncode != 0:
-        return ("harness failed: " + p.stdout[-2000:], None)
+    for stale in ("hang.txt", "current.txt", "progress.txt"):
+        try:
+            os.remove(os.path.join(outdir, stale))
+        except OSError:
+            pass
+    try:
+        p = subprocess.run([h, fam, str(seed), str(n), outdir] + extra, stdout=subprocess.PIPE, stderr=subprocess.STDOUT,
+                           text=True, errors="replace", timeout=7200)
+        rc, tail = p.returncode, p.stdout
+    except subprocess.TimeoutExpired as e:
+        rc, tail = -1, "shard timed out after 7200 s\n" + str(e.stdout or "")[-1500:]
+    if rc != 0:
+        # the harness process died (fatal runtime error, stack exhaustion) or its watchdog stopped a case that did not
+        # terminate: report the case it was running (index from progress.txt, input from current.txt when the family records it)
+        def rd(f):
+            try:
+                return open(os.path.join(outdir, f), errors="replace").read()
+            except OSError:
+                return ""
+        hang, cur, prog = rd("hang.txt"), rd("current.txt"), rd("progress.txt").strip()
+        idx = int(prog) if prog.isdigit() else -1
+        if hang:
+            what = "implementation did not terminate: case %d still running after %s s" % (idx, (re.search(r"seconds=(\d+)", hang) or [0, "?"])[1])
+            detail = hang[:3000]
+        else:
+            what = "harness process died (exit %s) while running case %d" % (rc, idx)
+            detail = tail[-3000:]
+        return ({"what": what, "index": idx, "case": cur, "detail": detail}, None)
     uni = os.path.join(outdir, "unicode.txt")
     if not os.path.exists(uni):
         subprocess.run([h, "unicode", uni], check=True)
@@ -70,7 +94,11 @@ def run_streams(pid, P, tier, seed, wdir, root, replay, built, log):
             outs = [f.result() for f in futs]
         for (sh, (err, d)) in zip(shards, outs):
             if err:
-                res["mismatches"].append((name, 0, "-", err, ""))
+                if isinstance(err, dict):   # process death / non-termination with a known case
+                    res["oracle_failures"].append((name, max(err["index"], 0), "seed=%d %s" % (sh[0], err["case"] or "-"),
+                                                   err["what"] + "\n" + err["detail"]))
+                else:
+                    res["mismatches"].append((name, 0, "-", err, ""))
                 continue
             cases = open(os.path.join(d, "cases.txt")).read().split("\n")
             impl = open(os.path.join(d, "impl.txt")).read().split("\n")
